@@ -29,6 +29,7 @@ LTIStateModel::LTIStateModel(const Ref<const MatrixXd>& transition_matrix, const
 
 
 LTIStateModel::LTIStateModel(LTIStateModel&& state_model) noexcept :
+    LinearStateModel(std::move(state_model)),
     F_(std::move(state_model.F_)),
     Q_(std::move(state_model.Q_))
 { }
@@ -38,6 +39,8 @@ LTIStateModel& LTIStateModel::operator=(LTIStateModel&& state_model) noexcept
 {
     if (this == &state_model)
         return *this;
+
+    LinearStateModel::operator=(std::move(state_model));
 
     F_ = std::move(state_model.F_);
 
